@@ -216,6 +216,16 @@ def check_case(case):
         c = crop if case.get("live") else xyz.Crop(name="k", parent_dir=d)
         if early is not None and kw.get("allow_incomplete"):
             c = early
+        if kw.get("allow_incomplete"):
+            v_ = core.pick([N, mode, req, sub, form, kind, "ai"], 4)
+            if v_ == 1:
+                kw["allow_incomplete"] = 1            # truthy, not True
+            elif v_ == 2:
+                kw["allow_incomplete"] = np.bool_(True)
+            elif v_ == 3 and not case.get("live"):
+                # (the handle was copied before it was ever used)
+                import copy
+                c = copy.deepcopy(c)
         if form == "raw":
             return c.reap(**kw)
         if form == "ds":
